@@ -924,20 +924,23 @@ class DataType(object):
 
         max_len = int(split_data_type[1])
 
+        if split_data_type[2] == 'lc':
+            normalized = {str(value).lower() for value in values}
+        elif split_data_type[2] == 'uc':
+            normalized = {str(value).upper() for value in values}
+        else:
+            normalized = {str(value) for value in values}
+
         if max_len > 0:
-            if [value for value in values if len(str(value)) > max_len]:
+            # Note that changing the case of a string can change its length.
+            if [value for value in normalized if len(value) > max_len]:
                 # At least one value is too long and we can not
                 # normalize it without loosing data.
                 raise EDXMLEventValidationError(
                     'Invalid string value in list: "%s"' % '","'.join([repr(value) for value in values])
                 )
 
-        if split_data_type[2] == 'lc':
-            return {str(value).lower() for value in values}
-        elif split_data_type[2] == 'uc':
-            return {str(value).upper() for value in values}
-        else:
-            return {str(value) for value in values}
+        return normalized
 
     def _normalize_base64(self, values):
         normalized = set()
